@@ -89,8 +89,21 @@ def cases(tier):
     return out
 
 
-def judge(case, rc, out, real):
-    """returns (ok, message, outcome-string)"""
+import re
+KNOWN_RR = 'C40-rr-parameters-unimplemented'
+RR_PARSABLE = re.compile(r'^(display:)?rr:\s*[+-]?\d+:\s*[+-]?\d+:\s*[+-]?\d+')
+
+
+def known_ids():
+    p = os.environ.get('VERIF_KNOWN_FINDINGS') or os.path.join(os.environ.get('VERIF_ROOT', '/verif'), 'known_findings.json')
+    try:
+        return {f.get('id') for f in json.load(open(p)).get('findings', [])}
+    except Exception:
+        return set()
+
+
+def judge(case, rc, out, real, err=''):
+    """returns (ok, message, outcome-string); ok == 'known' when the case shows exactly the signature of a recorded known finding"""
     exp = case['exp']
     lines = [l for l in out.splitlines() if l.strip()]
     js = None
@@ -100,6 +113,12 @@ def judge(case, rc, out, real):
                 js = json.loads(l)
             except Exception:
                 pass
+    if RR_PARSABLE.match(case['spec']) and rc == -6 and 'parsec_vpmap_init_from_parameters' in err and 'Assertion' in err:
+        # exactly the recorded signature: an rr specification that sscanf("rr:%d:%d:%d") accepts reaches the unfinished stub
+        # parsec_vpmap_init_from_parameters (assert(0)) - the stub is entered before any validation could take place, so
+        # rr:0:1:2 / rr:-1:2:2 / rr:2:2:4junk have the same root cause as rr:2:2:4. Any other signal, any other function,
+        # any wrong map, and every rr string that sscanf does not accept (rr:, rr:2:2, rr:a:b:c ...) is judged normally.
+        return 'known', '%s aborts in parsec_vpmap_init_from_parameters (assert(0): unfinished stub)' % case['spec'], 'known:rr-stub-abort'
     if rc < 0:
         return False, ('the process did not finish within 120 s' if rc == -14 else 'the process was killed by signal %d' % (-rc)), 'signal%d' % (-rc)
     reject_ok = exp['kind'] in ('reject', 'reject-file')
@@ -175,15 +194,15 @@ def run_case(exe, case, tmpdir, idx):
         spec = spec.replace('@F', path)
     for attempt in range(4):
         try:
-            r = subprocess.run([exe, str(case['req']), spec], env=env, stdout=subprocess.PIPE, stderr=subprocess.DEVNULL, timeout=120)
-            rc, out = r.returncode, r.stdout.decode('latin-1')
+            r = subprocess.run([exe, str(case['req']), spec], env=env, stdout=subprocess.PIPE, stderr=subprocess.PIPE, timeout=120)
+            rc, out, err = r.returncode, r.stdout.decode('latin-1'), r.stderr.decode('latin-1')[-2000:]
         except subprocess.TimeoutExpired:
-            rc, out = -14, ''
+            rc, out, err = -14, '', ''
         if rc == 127 and not out:      # the dynamic loader could not load libparsec (library being relinked by a concurrent build): retry
             time.sleep(3)
             continue
         break
-    return rc, out
+    return rc, out, err
 
 
 def descr(case):
@@ -200,6 +219,8 @@ def check(ctx):
     deadline = time.time() + float(os.environ.get('VERIF_C40_DEADLINE', 65 if ctx.tier == 'quick' else 1000))
     tmpdir = tempfile.mkdtemp(prefix='verif-c40-')
     kinds = {}
+    known = known_ids()
+    n_known = 0
     try:
         def work(i):
             if time.time() > deadline:
@@ -215,7 +236,13 @@ def check(ctx):
                 continue
             done += 1
             case = allc[i]
-            ok, msg, outcome = judge(case, res[0], res[1], case['topo'])
+            ok, msg, outcome = judge(case, res[0], res[1], case['topo'], res[2])
+            if ok == 'known':
+                if KNOWN_RR in known:
+                    n_known += 1
+                    ok = True
+                else:
+                    ok = False
             k = kinds.setdefault(case['name'], dict(n=0, nontriv=0, outcomes=set(), viol=0, samples=[]))
             k['n'] += 1
             k['outcomes'].add(outcome)
@@ -228,6 +255,9 @@ def check(ctx):
                 if k['viol'] <= 2:
                     rp = ctx.write_replay('%s-%d' % (case['name'], i), dict(engine='seqx', scenario=case['name'], case=case, history=descr(case), message=msg))
                     ctx.violation(rp, '%s: %s' % (descr(case), msg))
+        if n_known:
+            ctx.known_finding('%s rr:n:p:c specifications accepted by the parser abort in parsec_vpmap_init_from_parameters (assert(0), unfinished stub); every other rr outcome and every other family is judged normally' % KNOWN_RR)
+            ctx.notes.append('%d executed rr cases showed the known-finding signature' % n_known)
         exhaustive = done == len(allc)
         for name, k in sorted(kinds.items()):
             ctx.add_leg(name=name, engine='seqx', states=len(k['outcomes']), transitions=k['n'], executions=k['n'], nontrivial=k['nontriv'],
@@ -246,8 +276,11 @@ def replay(ctx, path, obj):
     case = obj['case']
     tmpdir = tempfile.mkdtemp(prefix='verif-c40-')
     try:
-        rc, out = run_case(exe, case, tmpdir, 0)
-        ok, msg, outcome = judge(case, rc, out, case['topo'])
+        rc, out, err = run_case(exe, case, tmpdir, 0)
+        ok, msg, outcome = judge(case, rc, out, case['topo'], err)
+        if ok == 'known':
+            print('  KNOWN-FINDING signature (%s): %s' % (KNOWN_RR, msg))
+            ok = KNOWN_RR in known_ids()
         print('  %s' % descr(case))
         print('  exit status %d, output: %s' % (rc, out.strip()[:600]))
         print('  -> %s' % outcome)
